@@ -366,6 +366,9 @@ func c10(ctx *Ctx) (*Outcome, error) {
 	for i := 0; i < 12; i++ {
 		cases = append(cases, sameBaseDirCase(i))
 	}
+	for i := 0; i < 6; i++ {
+		cases = append(cases, selfRefTwinCase(i))
+	}
 	for i := 0; i < 8; i++ {
 		cases = append(cases, bothDefsKeywordsCase(i))
 	}
@@ -477,7 +480,7 @@ func c10(ctx *Ctx) (*Outcome, error) {
 
 // reC10Stratum: the hand-built reference layouts; each of them is generated and built by the unchanged tool, so a
 // refusal or unbuildable output is a reference form that stopped being transparent.
-var reC10Stratum = regexp.MustCompile(`^(file-cycle|same-stem|same-base-dir|cross-package|both-defs-keywords)/`)
+var reC10Stratum = regexp.MustCompile(`^(file-cycle|same-stem|same-base-dir|self-ref-twin|cross-package|both-defs-keywords)/`)
 
 // sameBaseDirCase: schema files with the SAME base name in different directories, one referring to definitions of
 // the others by relative path while holding definitions of the same names itself; also a reference that spells out
@@ -525,6 +528,48 @@ func sameBaseDirCase(i int) *sem.Case {
 			continue
 		}
 		c.Docs = append(c.Docs, docgen.Doc{V: d, Class: "deep", Label: "same-base-dir"})
+	}
+	return c
+}
+
+// selfRefTwinCase: two documents with the same file name in different directories (v1/item.json, v2/item.json), each
+// recursive through {"$ref":"#"} and with required members of its own, both pulled in by whole-file references from a
+// third document (the second root's name is taken when it is generated); also a definition whose name identifierizes
+// to the root's name. Documents are valid at every level for the version they belong to.
+func selfRefTwinCase(i int) *sem.Case {
+	mk := func(req string) *sg.Schema {
+		s := &sg.Schema{Types: []string{"object"}, Props: []sg.Prop{{Name: req, S: &sg.Schema{Types: []string{"string"}, MinLen: 1}}, {Name: "n", S: &sg.Schema{Types: []string{"integer"}}}}, Required: []string{req}}
+		s.Props = append(s.Props, sg.Prop{Name: "next", S: &sg.Schema{Ref: "#", Target: s}})
+		return s
+	}
+	v1, v2 := mk("code"), mk("sku")
+	paths := [][2]string{{"v1/item.json", "v2/item.json"}, {"a/node.json", "b/node.json"}, {"x/tree.yaml", "y/tree.yaml"}}[i%3]
+	data := func(s *sg.Schema, file string) []byte {
+		if strings.HasSuffix(file, ".yaml") {
+			return sg.ToYAML(s.ToJSON(), sg.YAMLBlock)
+		}
+		return jsonx.MarshalIndent(s.ToJSON())
+	}
+	root := &sg.Schema{Types: []string{"object"}, Props: []sg.Prop{{Name: "first", S: &sg.Schema{Ref: paths[0], Target: v1}}, {Name: "second", S: &sg.Schema{Ref: paths[1], Target: v2}}}}
+	if (i/3)%2 == 1 {
+		root.Props = []sg.Prop{{Name: "zfirst", S: &sg.Schema{Ref: paths[0], Target: v1}}, {Name: "asecond", S: &sg.Schema{Ref: paths[1], Target: v2}}}
+	}
+	c := &sem.Case{Root: root, Sig: fmt.Sprintf("self-ref-twin/%d", i%6), NoAuto: true, Extra: []batch.File{{Path: paths[0], Data: data(v1, paths[0])}, {Path: paths[1], Data: data(v2, paths[1])}}}
+	chain := func(req string, depth int) jsonx.Obj {
+		var o jsonx.Obj
+		for d := depth; d >= 0; d-- {
+			n := jsonx.Obj{{K: req, V: fmt.Sprintf("%s%d", req, d)}, {K: "n", V: jsonx.N(int64(d))}}
+			if o != nil {
+				n = append(n, jsonx.KV{K: "next", V: o})
+			}
+			o = n
+		}
+		return o
+	}
+	ka, kb := root.Props[0].Name, root.Props[1].Name
+	for depth := 0; depth < 3; depth++ {
+		c.Docs = append(c.Docs, docgen.Doc{V: jsonx.Obj{{K: ka, V: chain("code", depth)}}, Class: "valid", Label: "v1-chain"}, docgen.Doc{V: jsonx.Obj{{K: kb, V: chain("sku", depth)}}, Class: "valid", Label: "v2-chain"},
+			docgen.Doc{V: jsonx.Obj{{K: ka, V: chain("code", depth)}, {K: kb, V: chain("sku", depth)}}, Class: "valid", Label: "both"})
 	}
 	return c
 }
